@@ -39,7 +39,7 @@ TEXT_STYLE = ["d-text-smallest", "d-text-smaller", "d-text-small", "d-text-mediu
 TEXT_OL = ["d-text-ol", "d-text-ol-thinner", "d-text-ol-thin", "d-text-ol-medium", "d-text-ol-thick", "d-text-ol-thicker"]
 STROKE = ["d-thinner", "d-thin", "d-thick", "d-thicker"]
 LINE = ["d-dot", "d-dash", "d-flow", "d-flow-slower", "d-flow-slow", "d-flow-fast", "d-flow-faster", "d-flow-rev"]
-ARROW = ["d-arrow"]
+ARROW = ["d-arrow", "d-biarrow"]
 SHADOW = ["d-softshadow", "d-hardshadow"]
 PATTERN_FAMILIES = ["d-grid", "d-stipple", "d-hatch", "d-crosshatch"]
 THEMES = ["default", "bold", "fine", "glass", "light", "dark"]
@@ -283,6 +283,8 @@ def random_doc(rng, vocab):
     classes = [rng.choice(vocab) for _ in range(n)]
     if rng.random() < 0.4:
         classes += rng.sample(LOOKALIKES, rng.randint(1, 3))
+    if rng.random() < 0.3:
+        classes += rng.sample(ARROW + SHADOW + PATTERN_FAMILIES + ["d-grid-5", "d-hatch-5", "d-flow", "d-flow-rev"], rng.randint(2, 4))
     lines = []
     shapes = ['<rect xy="%d 0" wh="8" class="%s"%s/>', '<circle cxy="%d 20" r="4" class="%s"%s/>', '<line xy1="%d 30" xy2="%d 38" class="%s"/>',
               '<polyline points="%d 40 5 45" class="%s"/>', '<text xy="%d 50" class="%s" text="w"/>', '<ellipse cxy="%d 60" rxy="4 2" class="%s"%s/>',
@@ -369,6 +371,24 @@ def run_shard(ctx):
             if not ctx.mine(k) or ctx.out_of_time():
                 continue
             check_case(ctx, dict(input=sweep_doc(cls).encode(), cfg=dict(theme=theme), classes=[cls], root=True, feats=["lookalike", "theme." + theme, "sweep"]))
+    # pairs of classes that bring definitions (markers, filters, patterns) or share a rule: two classes may need the same
+    # definition, which still has to be emitted once
+    bearing = ARROW + SHADOW + PATTERN_FAMILIES + [f + "-5" for f in PATTERN_FAMILIES] + ["d-grid-h", "d-grid-v", "d-grid-10", "d-flow", "d-flow-rev", "d-dash"]
+    for i, c1 in enumerate(bearing):
+        for c2 in bearing[i + 1:]:
+            for layout in ("same-element", "two-elements", "two-kinds"):
+                for theme in ("default", "dark"):
+                    k += 1
+                    if not ctx.mine(k) or ctx.out_of_time():
+                        continue
+                    if layout == "same-element":
+                        body = '  <line xy1="0 0" xy2="20 5" class="%s %s"/>\n  <rect xy="0 10" wh="8" class="%s %s"/>' % (c1, c2, c2, c1)
+                    elif layout == "two-elements":
+                        body = '  <line xy1="0 0" xy2="20 5" class="%s"/>\n  <line xy1="0 10" xy2="20 15" class="%s"/>' % (c1, c2)
+                    else:
+                        body = '  <rect xy="0 10" wh="8" class="%s"/>\n  <polyline points="0 30 10 35 20 30" class="%s"/>\n  <line xy1="0 0" xy2="20 5" class="%s"/>' % (c1, c2, c1)
+                    check_case(ctx, dict(input=("<svg>\n%s\n</svg>" % body).encode(), cfg=dict(theme=theme), classes=[c1, c2], root=True,
+                                         feats=[class_family(c1), class_family(c2), "pair." + layout, "theme." + theme]))
     rng = ctx.rng("subsets")
     full = vocabulary(False)
     n = 6000 if ctx.quick() else 150000
